@@ -234,9 +234,13 @@ def markov_helper(repo, rep):
     h = repo.f("fast_SIR")
     rep.analysed(h)
     sites, _ = sites_of(repo)
+    n_before = len(rep.obs)
     for c in walk_function(h.node):
         if isinstance(c.stmt, ast.Return) and isinstance(c.stmt.value, ast.Call):
             kw = {k.arg: k.value for k in c.stmt.value.keywords}
+            for s_ in sites:
+                if s_.node is c.stmt.value and not s_.error:
+                    kw = {k: v for k, v in s_.binding.items() if isinstance(v, ast.AST)}
             if "trans_and_rec_time_fxn" in kw:
                 fs = _fact_set(c)
                 ok = "not(transmission_weightisnotNone)" in fs and "not(tau*gamma==0)" in fs
@@ -256,6 +260,8 @@ def markov_helper(repo, rep):
                         ok2 = "rate=%s" % call in t and "ifrate>0:" in t and "returnrandom.expovariate(rate)" in t and "returnfloat('Inf')" in t
                     rep.ob("MARKOV", ok2, "fast_SIR general path: %s ~ Exp(%s of its own arguments), Inf for rate 0" % (nm, rf), func=h,
                            node=g2.node if g2 else h.node, construct="%s body" % nm, detail="" if ok2 else "delay rule of the general path changed")
+    if rep.only is None or "MARKOV" in rep.only:
+        rep.floor("MARKOV", "fast_SIR path obligations (shortcut guard+args, two general-path delay rules)", len(rep.obs) - n_before, 4)
 
 
 # ---------------------------------------------------------------------------
